@@ -83,8 +83,38 @@ def extra_coverage():
 
 # ------------------------------------------------------------------ slots and canonical state
 
+THREADED = [False]      # per history: every library call (and the reading of the option state) runs in a thread of its own
+
+
+def in_thread(thunk):
+    """run thunk() in a brand-new thread when the history is a threaded one ("a later call" is a later call whichever
+    thread makes it: the options of a call that has returned must be gone for every caller)"""
+    if not THREADED[0]:
+        return thunk()
+    import threading
+    box = {}
+
+    def run():
+        try:
+            box["res"] = thunk()
+        except BaseException as e:  # noqa
+            box["exc"] = e
+    t = threading.Thread(target=run)
+    t.start()
+    t.join()
+    if "exc" in box:
+        raise box["exc"]
+    return box["res"]
+
+
 def slots():
-    return (M._DataClassSerializeMixin__serialization_options, M._DataClassSerializeMixin__mashumaro_dialect)
+    return in_thread(_slots)
+
+
+def _slots():
+    # through the accessors the (de)serialization hooks themselves use (classmethods: no instance needed), so that the
+    # observation does not depend on how the state is stored
+    return (dict(M._get_deserialization_options()), M._get_deserialization_mashumaro_dialect())
 
 
 def enc_ob(d: dict, k):
@@ -364,7 +394,7 @@ def run_history(rng: random.Random, seq_id: int, n_calls: int, ref, ref_before, 
         nonlocal oracle
         z.PROBE_LOG.clear()
         try:
-            res = thunk()
+            res = in_thread(thunk)
             outcome = post(res)
         except Exception:  # noqa  (the statement names no exception class)
             outcome = [A("raise")]
@@ -535,13 +565,19 @@ def cases(rng: random.Random, tier: str):
                     o[AST] = ast
                 forced.append((kind, o, md if kind in ("as_dict", "to_yaml") else None))
             seq_id += 1
+            THREADED[0] = rng.random() < 0.3
             line, real, oracle, desc, st = run_history_fixed(rng, seq_id, t, forced, ref, ref_before)
+            desc += " [every call in a thread of its own]" if THREADED[0] else ""
+            THREADED[0] = False
             yield Case("combo", line, real, True, desc, oracle_fail=oracle, sig=sig_of(oracle))
     for _ in range(n_hist):
         seq_id += 1
         n_calls = rng.randint(2, 6)
         budget = rng.choice([1, 3, 6, 10, 16])
+        THREADED[0] = rng.random() < 0.3
         line, real, oracle, desc, st = run_history(rng, seq_id, n_calls, ref, ref_before, budget)
+        desc += " [every call in a thread of its own]" if THREADED[0] else ""
+        THREADED[0] = False
         nontrivial = st["opts"] >= 1 and st["objs"] >= 3 or (st["opts"] >= 1 and st["depth"] >= 1)
         yield Case("history", line, real, nontrivial, desc, oracle_fail=oracle, sig=sig_of(oracle))
 
@@ -561,7 +597,7 @@ def run_history_fixed(rng, seq_id, tree, forced, ref, ref_before):
         for which, thunk, o, m in ((0, lambda: parse(getattr(tree, kind)(**kw)), opts, md),
                                    (1, lambda: ref.as_dict(), None, None)):
             try:
-                out = thunk()
+                out = in_thread(thunk)
                 if oracle is None:
                     f = shape_oracle(out, o, kind if which == 0 else "as_dict")
                     if f:
